@@ -311,6 +311,36 @@ def per_operation():
         obs.append(simple_ob("Yaml2Regex.__init__:POST-null-config", "jasm.jasm_regex.yaml2regex.Yaml2Regex.__init__", "POST",
                              "an empty `config:` entry (None) raises or loads the empty config; it never leaves the singleton as the previous rule set it",
                              okn, PCFG, detail=outcome, witness=outcome))
+        # end to end: the constructor with the REAL load_config -- whatever it does to the rule's config on the way (renaming,
+        # defaulting, copying), the singleton ends up with the values the rule wrote, for every entry in its documented spelling
+        J.gd.JASMConfig.load_config = orig_lc
+        full = {"style": "intel", "mnemonics-full-match": True, "operands-full-match": True,
+                "valid_addr_range": {"min": "0x10", "max": "0xff"}, "sections": [".text", ".plt"]}
+        for cid, conf in (("all-set", full), ("flags-only", {"mnemonics-full-match": True, "operands-full-match": True}),
+                          ("one-flag", {"operands-full-match": True}), ("none", {})):
+            J.gd.JASMConfig.get_instance().global_info.clear()
+            Y.load_file = staticmethod(lambda file, conf=conf: {"pattern": ["x"], "config": dict(conf)} if conf else {"pattern": ["x"]})
+            try:
+                Y("rule.yaml")
+                raised = None
+            except Exception as e:     # noqa
+                raised = e
+            if raised is not None:
+                oke, outcome = False, f"a well-formed configuration is refused: {raised!r}"
+            else:
+                # read outside the try: a tree whose singleton no longer has this shape is a contract misfit, not a verdict
+                gi = dict(J.gd.JASMConfig.get_instance().global_info)
+                pm = J.gd.PartialMatchingConfig
+                vr = gi.get("valid_addr_range")
+                oke = gi.get(pm.MnemonicsFullMatch) is bool(conf.get("mnemonics-full-match", False)) \
+                    and gi.get(pm.OperandsFullMatch) is bool(conf.get("operands-full-match", False)) \
+                    and gi.get("assembly_style") == (J.gd.DisassStyle.intel if conf.get("style") == "intel" else J.gd.DisassStyle.att) \
+                    and gi.get("sections") == conf.get("sections", []) \
+                    and ((vr is None) if "valid_addr_range" not in conf else (vr is not None and vr.min.hex == 0x10 and vr.max.hex == 0xff))
+                outcome = repr({str(k): (v if not hasattr(v, "min") else (v.min.hex, v.max.hex)) for k, v in gi.items()})
+            obs.append(simple_ob(f"Yaml2Regex.__init__:POST-config-values:{cid}", "jasm.jasm_regex.yaml2regex.Yaml2Regex.__init__", "POST",
+                                 f"[{cid}] after the constructor the singleton holds exactly the rule's configuration (flags, style, range, sections; "
+                                 "defaults for what the rule does not say)", oke, PCFG + ["C17"], detail=outcome[:300], witness=cid))
         Y.load_file = staticmethod(lambda file: {"pattern": ["x"]})
         y = Y("rule.yaml")
         a, b = y.context_initializer(), y.context_initializer()
